@@ -168,7 +168,7 @@ macro_rules! check_int {
                     std::str::from_utf8(sb.bytes()).unwrap()
                 ),
             );
-        } else if l.is_heap_allocated() != (sb.len > 16) {
+        } else if l.is_heap_allocated() != (sb.len > crate::ops::INLINE_CAP) {
             $sink.viol(
                 "int-storage",
                 format!("{} {}", $tyname, std::str::from_utf8(sb.bytes()).unwrap()),
@@ -397,10 +397,10 @@ fn check_f32(sink: &Sink, bits: u32, cells: &mut [u64; 20]) {
         Ok(y) if (x.is_nan() && y.is_nan()) || y.to_bits() == x.to_bits() => {}
         other => sink.viol("float-roundtrip", format!("f32 bits {bits:#010x}"), format!("text {:?} parses back as {:?}", l.as_str(), other)),
     }
-    if l.is_heap_allocated() != (l.len() > 16) {
+    if l.is_heap_allocated() != (l.len() > crate::ops::INLINE_CAP) {
         sink.viol("float-storage", format!("f32 bits {bits:#010x}"), format!("len {} heap {}", l.len(), l.is_heap_allocated()));
     }
-    cells[fclass(x.classify(), x.is_sign_negative(), l.len() > 16)] += 1;
+    cells[fclass(x.classify(), x.is_sign_negative(), l.len() > crate::ops::INLINE_CAP)] += 1;
 }
 fn check_f64(sink: &Sink, bits: u64, cells: &mut [u64; 20]) {
     let x = f64::from_bits(bits);
@@ -409,10 +409,10 @@ fn check_f64(sink: &Sink, bits: u64, cells: &mut [u64; 20]) {
         Ok(y) if (x.is_nan() && y.is_nan()) || y.to_bits() == x.to_bits() => {}
         other => sink.viol("float-roundtrip", format!("f64 bits {bits:#018x}"), format!("text {:?} parses back as {:?}", l.as_str(), other)),
     }
-    if l.is_heap_allocated() != (l.len() > 16) {
+    if l.is_heap_allocated() != (l.len() > crate::ops::INLINE_CAP) {
         sink.viol("float-storage", format!("f64 bits {bits:#018x}"), format!("len {} heap {}", l.len(), l.is_heap_allocated()));
     }
-    cells[fclass(x.classify(), x.is_sign_negative(), l.len() > 16)] += 1;
+    cells[fclass(x.classify(), x.is_sign_negative(), l.len() > crate::ops::INLINE_CAP)] += 1;
 }
 
 pub fn engine_tls(a: &Args) {
